@@ -79,6 +79,9 @@ func (w *World) modsOfFunc(key string, c *Ctx, visiting map[string]bool) *modSet
 		stack = append(stack, d.callees...)
 	}
 	out.vars = map[types.Object]bool{}
+	// seen from a caller, lock and once state are left balanced (checked by the callee's own lock-released@exit)
+	delete(out.heaps, "LK")
+	delete(out.heaps, "ONCE")
 	w.mods[key] = out
 	return out
 }
@@ -407,10 +410,15 @@ func (w *World) callMods(pkg *packages.Package, c *Ctx, call *ast.CallExpr, ms *
 	if fn.Pkg() != nil {
 		switch fn.Pkg().Path() {
 		case "sync":
-			ms.heaps["LK"] = true
-			ms.emits = true
-			if fn.Name() == "Do" {
-				return // the literal argument is visited by the enclosing Inspect
+			// lock state lives in the LK ghost heap (no events); wait groups and Once.Do callbacks are events
+			switch fn.Name() {
+			case "Lock", "Unlock", "RLock", "RUnlock", "TryLock", "TryRLock":
+				ms.heaps["LK"] = true
+			case "Do":
+				ms.heaps["ONCE"] = true
+				ms.emits = true
+			default:
+				ms.emits = true
 			}
 			return
 		case "sync/atomic":
